@@ -356,7 +356,21 @@ func (i *Interpreter) Exec(ctx context.Context, bs match.Bindings, props core.St
 	case *goja.InterruptedError:
 		return nil, vv
 	case map[string]interface{}:
-		result = match.Bindings(vv)
+		// Bindings are plain JSON data, so represent the returned
+		// value that way (just as emitted messages and the given
+		// bindings are).  Otherwise, say, an integer in an array
+		// stays an int64, which the matcher treats differently
+		// from the float64 that appears once the state has been
+		// written out and read back.
+		y, err := core.Canonicalize(vv)
+		if err != nil {
+			return nil, err
+		}
+		m, is := y.(map[string]interface{})
+		if !is {
+			return nil, fmt.Errorf("%#v (%T) isn't Bindings", y, y)
+		}
+		result = match.Bindings(m)
 	case match.Bindings:
 		result = vv
 	case nil:
